@@ -884,6 +884,19 @@ def cold_eval(req):
             if kk != sym and (kk not in after or kk not in before or not entry_eq(before[kk], after[kk]))
             and derive(kk, node.model) is None
         )
+        if k in ("define_unit", "modify_q") and "exc" not in out and node.kind != "default":
+            # independent expectation: a symbol defined as (v, unit) holds v*unit expressed in MKS, whatever
+            # unit system the registry converts to by default.  Computed on a second fresh registry with the
+            # same contents before the edit but the mks unit system, with an explicit in_base("mks").
+            try:
+                nw = next(n for n in req["nodes"] if n["id"] == node.id)
+                reg2, _ = build_registry(dict(nw, usys="mks"))
+                q = unyt.unyt_quantity(op["v"], op["s"], registry=reg2)
+                out["expected"] = [float(q.in_base("mks").value), str(q.units.dimensions)]
+            except Exception as e:
+                if harness_frame(e.__traceback__):
+                    raise
+                out["expected"] = None
         return out
     out, res = run_call(PROBES[k], w, op)
     if (k, op.get("how")) in INPLACE_TARGET or k == "simplify":
